@@ -1118,9 +1118,11 @@ fn gen_case(r: &mut Rng, is_req: bool) -> Case {
         }
         _ => opts.priority = Some(PrioritySpec { exclusive: true, dependency: 0, weight: 255 }),
     }
-    let ncuts = match r.below(6) {
+    let ncuts = match r.below(8) {
         0 => 1,
         1 => r.range(1, 4) as usize,
+        // many CONTINUATION frames (RFC 7540 sets no limit on their number)
+        2 => r.range(8, 40) as usize,
         _ => 0,
     };
     // cut positions are relative; resolved against the block length in `finish_cuts`
